@@ -37,7 +37,39 @@ THEOREMS = [
     'Sbepp.Spec.StaticArray.assignString_isAssignString',
     'Sbepp.Spec.StaticArray.apply_length',
     'Sbepp.Spec.StaticArray.apply_reject_iff',
+    # tie: every member function regenerated from sbepp.hpp (extract/methods_staticarray.py) = the hand model
+    'Sbepp.Lemmas.StaticArrayTie.sizeM_tie',
+    'Sbepp.Lemmas.StaticArrayTie.dataM_tie',
+    'Sbepp.Lemmas.StaticArrayTie.beginM_tie',
+    'Sbepp.Lemmas.StaticArrayTie.endM_tie',
+    'Sbepp.Lemmas.StaticArrayTie.rbeginM_tie',
+    'Sbepp.Lemmas.StaticArrayTie.rendM_tie',
+    'Sbepp.Lemmas.StaticArrayTie.stringLengthM_tie',
+    'Sbepp.Lemmas.StaticArrayTie.stringLengthCEM_tie',
+    'Sbepp.Lemmas.StaticArrayTie.strlen_tie',
+    'Sbepp.Lemmas.StaticArrayTie.strlenCE_tie',
+    'Sbepp.Lemmas.StaticArrayTie.strlenR_tie',
+    'Sbepp.Lemmas.StaticArrayTie.pad_tie',
+    'Sbepp.Lemmas.StaticArrayTie.assignStringRaw_tie',
+    'Sbepp.Lemmas.StaticArrayTie.assignStringRawCE_tie',
+    'Sbepp.Lemmas.StaticArrayTie.assignRange_tie',
+    'Sbepp.Lemmas.StaticArrayTie.assignRangeRanges_tie',
+    'Sbepp.Lemmas.StaticArrayTie.assignStringRange_tie',
+    'Sbepp.Lemmas.StaticArrayTie.assignStringRangeRanges_tie',
+    'Sbepp.Lemmas.StaticArrayTie.fill_tie',
+    'Sbepp.Lemmas.StaticArrayTie.assignCount_tie',
+    'Sbepp.Lemmas.StaticArrayTie.assignIter_tie',
+    'Sbepp.Lemmas.StaticArrayTie.assignIlist_tie',
+    'Sbepp.Lemmas.StaticArrayTie.runX_tie',
+    'Sbepp.Lemmas.StaticArrayTie.fits_needed',
+    # the main statements, about the regenerated definitions
+    'Sbepp.Properties.C14.run_agrees_spec_extracted',
+    'Sbepp.Properties.C14.no_assert_in_contract_extracted',
+    'Sbepp.Properties.C14.assert_outside_contract_extracted',
+    'Sbepp.Properties.C14.view_too_small_rejects_extracted',
+    'Sbepp.Properties.C14.strlen_variants_agree_extracted',
 ]
+EXTRACT_PART = 'methods_staticarray'
 
 ALPHABET = ('00', '61', '62')            # NUL, 'a', 'b'
 PATTERN = '78797a777675747372'           # "xyzwvutsr": input letters differ from the array's
@@ -289,9 +321,14 @@ def run(chk):
     correspond(chk, configs_for(chk.tier))
     if chk.failed_obligations and not chk.violations:
         chk.report_unproved('theorem', chk.failed_obligations)
+    ex_failed = (chk.extract_report or {}).get('parts', {}).get(EXTRACT_PART, {'failed': {'part': 'not run'}}).get('failed', {})
+    if ex_failed and not chk.violations:
+        chk.report_unproved('extraction', {'part': EXTRACT_PART, 'failed': ex_failed})
     chk.assumptions += [
-        'Rt.StaticArray is a hand transliteration of static_array_ref (no extracted kernel): a change of the C++ '
-        'is seen by the impl-vs-model comparison, not by the theorems',
+        'Rt.StaticArray is a hand transliteration of static_array_ref; every member function is regenerated from '
+        'sbepp.hpp by extract/methods_staticarray.py and proved equal to it (Lemmas/StaticArrayTie.lean) for views '
+        'and argument lengths that fit std::size_t; the std:: algorithms, byte_range and the C++ typing facts listed '
+        'in the header of Extracted/StaticArray.lean are inputs of that translation',
         'a null begin pointer of the view is not modelled; Value = char only (strlen() does not compile for other '
         'element types)',
         'constant evaluation is exercised through tables the compiler computes in C++20 builds; in constant '
